@@ -608,7 +608,11 @@ def worker(args):
 
     for case in chunk:
         with numpy.errstate(all="ignore"):
-            recs, hits, compared = run_case(case, classes, number, tier, mode, tol)
+            try:
+                recs, hits, compared = run_case(case, classes, number, tier, mode, tol)
+            except Exception as ex:
+                from . import common as _c
+                recs, hits, compared = [dict(_c.crash_record(case["op"], ex), kind="error", sig=[None, None])], [], 0
         out["cases"] += 1
         out["calls"] += len(hits)
         out["compared"] += compared
